@@ -155,8 +155,8 @@ def packSpec (m : Msg) (size : Nat) (o : PackOut) : String :=
     let optLen := match (m.additionals.filter isOpt).getLast? with
       | some opt => resourcePackLen opt
       | none => 0
-    -- (when the OPT alone does not leave any budget the code cannot honour the limit: documented corner)
-    if optLen < limit ∧ o.out.length > limit then "viol:size"
+    -- (when the OPT alone does not leave room for the header the code cannot honour the limit: documented corner)
+    if optLen + 12 ≤ limit ∧ o.out.length > limit then "viol:size"
     else match unpackMsgEnd o.out with
       | .ok (m', e) =>
         if e ≠ o.out.length then "viol:trailing"
